@@ -263,12 +263,13 @@ fn spellings(real: &str) -> [String; 3] {
 }
 
 fn read_obs(chain: &mut PatchChain, name: &str) -> Value {
+    // [class, token, variant]; class in ok | notfound | err | panic | hang
     match guarded(|| chain.read_file(name)) {
-        Outcome::Done(Ok(d)) => json!(["ok", tok(&d)]),
-        Outcome::Done(Err(wow_mpq::Error::FileNotFound(m))) if !m.contains("No base file") => json!(["notfound", ""]),
-        Outcome::Done(Err(e)) => json!([format!("err:{}", variant_name(&e)), ""]),
-        Outcome::Panic(m) => json!(["panic", m]),
-        Outcome::Hang => json!(["hang", ""]),
+        Outcome::Done(Ok(d)) => json!(["ok", tok(&d), ""]),
+        Outcome::Done(Err(wow_mpq::Error::FileNotFound(m))) if !m.contains("No base file") => json!(["notfound", "", ""]),
+        Outcome::Done(Err(e)) => json!(["err", "", variant_name(&e)]),
+        Outcome::Panic(m) => json!(["panic", "", m]),
+        Outcome::Hang => json!(["hang", "", ""]),
     }
 }
 
@@ -296,7 +297,7 @@ fn sweep(w: &World, chain: &mut PatchChain) -> Value {
             }
             ("ok".to_string(), known, unknown)
         }
-        Outcome::Done(Err(e)) => (format!("err:{}", variant_name(&e)), vec![], vec![]),
+        Outcome::Done(Err(_)) => ("err".to_string(), vec![], vec![]),
         Outcome::Panic(_) => ("panic".into(), vec![], vec![]),
         Outcome::Hang => ("hang".into(), vec![], vec![]),
     };
@@ -308,7 +309,7 @@ fn list_arg(w: &World, dir: &Path, op: &Value) -> Vec<(PathBuf, i32)> {
 }
 
 /// apply one abstract op to the real chain; returns the result class
-fn apply_op(w: &World, dir: &Path, chain: &mut PatchChain, op: &Value) -> String {
+fn apply_op(w: &World, dir: &Path, chain: &mut PatchChain, op: &Value) -> (String, String) {
     let kind = gs(op, "op");
     let a = gs(op, "a");
     let p = gi(op, "p") as i32;
@@ -336,10 +337,10 @@ fn apply_op(w: &World, dir: &Path, chain: &mut PatchChain, op: &Value) -> String
         }
     });
     match r {
-        Outcome::Done(Ok(s)) => s,
-        Outcome::Done(Err(e)) => format!("err:{}", variant_name(&e)),
-        Outcome::Panic(_) => "panic".into(),
-        Outcome::Hang => "hang".into(),
+        Outcome::Done(Ok(s)) => (s, String::new()),
+        Outcome::Done(Err(e)) => ("err".into(), variant_name(&e)),
+        Outcome::Panic(m) => ("panic".into(), m),
+        Outcome::Hang => ("hang".into(), String::new()),
     }
 }
 
@@ -349,7 +350,7 @@ fn chain_obs(w: &World, chain: &mut PatchChain) -> Value {
 }
 
 fn op_event(w: &World, dir: &Path, chain: &mut PatchChain, case: &str, op: &Value, do_sweep: bool) -> Value {
-    let res = apply_op(w, dir, chain, op);
+    let (res, resv) = apply_op(w, dir, chain, op);
     let n = chain.archive_count();
     let ch = chain_obs(w, chain);
     let sw = if do_sweep {
@@ -358,7 +359,7 @@ fn op_event(w: &World, dir: &Path, chain: &mut PatchChain, case: &str, op: &Valu
         json!({"rd":[],"rd2":[],"rd3":[],"has":[],"fnd":[],"lres":"","lst":[],"lstx":[]})
     };
     json!({"ev":"Op","case":case,"op":gs(op,"op"),"a":gs(op,"a"),"p":gi(op,"p"),"l":op["l"],
-           "res":res,"count":n,"chain":ch,"sw":do_sweep,"obs":sw})
+           "res":res,"resv":resv,"count":n,"chain":ch,"sw":do_sweep,"obs":sw})
 }
 
 // ------------------------------------------------------------------------------------------
@@ -410,7 +411,49 @@ fn concretise_plan(c: &Value, rng: &mut Rng) -> (Vec<u8>, Vec<u8>, Vec<u8>) {
             }
         }
         let extra = rng.bytes(ne);
-        make_bsd0(&old, &ctrl, &data, &extra)
+        // encoder-level mutations (inside the RLE-packed bsdiff image): one control field or one
+        // 64-bit header field replaced; digests and sizes stay those of the intended result
+        let m = &c["mut"];
+        let special = |v: i64| -> u64 {
+            match v {
+                -1 => 0xFFFF_FFFF,
+                -2 => 0x8000_0000,
+                -3 => 0x7FFF_FFFF,
+                -4 => 0xFFFF_FFFF_FFFF_FFFF,
+                -5 => 0x1_0000_0000,
+                v => v as u64,
+            }
+        };
+        let newc = encode_apply(&old, &ctrl, &data, &extra);
+        let mut raw: Vec<[u32; 3]> = ctrl.iter().map(|c| [c.add, c.mov, seek_raw(c.seek)]).collect();
+        if gs(m, "k") == "ctrl" {
+            let idx = gi(m, "off") as usize / 3;
+            let fld = gi(m, "off") as usize % 3;
+            if idx < raw.len() {
+                let v = gi(m, "v");
+                raw[idx][fld] = if v <= -10 { raw[idx][fld].wrapping_add((v + 20) as u32) } else { special(v) as u32 };
+            }
+        }
+        let mut img = bsdiff_image(&raw, &data, &extra, newc.len() as u64);
+        if gs(m, "k") == "img64" {
+            let off = gi(m, "off") as usize;
+            let v = gi(m, "v");
+            let cur = u64::from_le_bytes(img[off..off + 8].try_into().unwrap());
+            let nv = if v <= -10 { cur.wrapping_add((v + 20) as u64) } else { special(v) };
+            img[off..off + 8].copy_from_slice(&nv.to_le_bytes());
+        }
+        let mut payload = (img.len() as u32).to_le_bytes().to_vec();
+        payload.extend_from_slice(&rle_encode(&img));
+        let h = Header {
+            patch_data_size: img.len() as u32,
+            size_before: old.len() as u32,
+            size_after: newc.len() as u32,
+            md5_before: md5_raw(&old),
+            md5_after: md5_raw(&newc),
+            xfrm_block_size: 12 + payload.len() as u32,
+            kind: BSD0,
+        };
+        (ptch_file(&h, &payload), newc)
     };
     // mutation of the finished file / of the base
     let m = &c["mut"];
@@ -424,7 +467,7 @@ fn concretise_plan(c: &Value, rng: &mut Rng) -> (Vec<u8>, Vec<u8>, Vec<u8>) {
     };
     let rd = |b: &[u8], o: usize| u32::from_le_bytes([b[o], b[o + 1], b[o + 2], b[o + 3]]);
     match mk {
-        "none" => {}
+        "none" | "ctrl" | "img64" => {}
         // header words: absolute (set) or relative (delta) changes
         "set32" => put32(&mut file, gi(m, "off") as usize, val),
         "add32" => {
@@ -476,22 +519,22 @@ fn plan_event(case: &str, c: &Value, rng: &mut Rng) -> Value {
     let out = with_watchdog(std::time::Duration::from_secs(20), move || {
         let parsed = PatchFile::parse(&f2);
         match parsed {
-            Err(e) => ("parse".to_string(), format!("err:{}", variant_name(&e)), Vec::new()),
+            Err(e) => ("parse".to_string(), "err".to_string(), variant_name(&e), Vec::new()),
             Ok(pf) => match apply_patch(&pf, &b2) {
-                Ok(d) => ("apply".to_string(), "ok".to_string(), d),
-                Err(e) => ("apply".to_string(), format!("err:{}", variant_name(&e)), Vec::new()),
+                Ok(d) => ("apply".to_string(), "ok".to_string(), String::new(), d),
+                Err(e) => ("apply".to_string(), "err".to_string(), variant_name(&e), Vec::new()),
             },
         }
     });
-    let (stage, res, data, pmsg) = match out {
-        Outcome::Done((s, r, d)) => (s, r, d, String::new()),
-        Outcome::Panic(m) => ("apply".into(), "panic".into(), Vec::new(), m),
-        Outcome::Hang => ("apply".into(), "hang".into(), Vec::new(), String::new()),
+    let (stage, res, resv, data) = match out {
+        Outcome::Done((s, r, v, d)) => (s, r, v, d),
+        Outcome::Panic(m) => ("apply".into(), "panic".into(), m, Vec::new()),
+        Outcome::Hang => ("apply".into(), "hang".into(), String::new(), Vec::new()),
     };
     json!({"ev":"Apply","case":case,"shape":gs(c,"shape"),"mut":c["mut"],"neg":gb(c,"neg"),
            "file":file,"base":base,"newc":newc,
            "md5base":md5_raw(&base).to_vec(),"md5new":md5_raw(&newc).to_vec(),
-           "stage":stage,"res":res,"out":data.clone(),"md5out":md5_raw(&data).to_vec(),"pmsg":pmsg})
+           "stage":stage,"res":res,"resv":resv,"out":data.clone(),"md5out":md5_raw(&data).to_vec()})
 }
 
 // ------------------------------------------------------------------------------------------
@@ -507,13 +550,15 @@ fn main() {
     let per_reset = 40usize;
 
     if a.extra.first().map(|s| s.as_str()) == Some("plans") {
+        let mut emitted = 0usize;
         for (ci, c) in cases.iter().enumerate() {
             if gs(c, "kind") != "plan" {
                 continue;
             }
-            if ci % 50 == 0 {
+            if emitted % 50 == 0 {
                 trace.ev(json!({"ev":"Reset","case":format!("{ci}:plans")}));
             }
+            emitted += 1;
             let case = format!("{ci}:{}:{}", gs(c, "shape"), gs(&c["mut"], "k"));
             let mut rng = Rng::derive(seed, &format!("c08-plan-{ci}"));
             trace.ev(plan_event(&case, c, &mut rng));
